@@ -11,6 +11,7 @@ import (
 
 	"github.com/anishathalye/porcupine"
 	"github.com/failsafe-go/failsafe-go"
+	"github.com/failsafe-go/failsafe-go/bulkhead"
 	"github.com/failsafe-go/failsafe-go/circuitbreaker"
 	"github.com/failsafe-go/failsafe-go/fallback"
 	"github.com/failsafe-go/failsafe-go/retrypolicy"
@@ -82,6 +83,12 @@ func newC04Round(cs c04Case) *c04Round {
 		rd.pols = []failsafe.Policy[int]{rd.cb, timeout.With[int](30 * time.Millisecond)}
 	case "fallback(cb)":
 		rd.pols = []failsafe.Policy[int]{fallback.WithResult[int](-1), rd.cb}
+	case "cb(bhfull)":
+		// inside the breaker a bulkhead that is always full: every admitted execution is shed with ErrFull before it reaches
+		// the function - a failure like any other, which must be recorded and give its half-open permit back
+		bh := bulkhead.With[int](1)
+		bh.TryAcquirePermit()
+		rd.pols = []failsafe.Policy[int]{rd.cb, bh}
 	}
 	return rd
 }
@@ -226,7 +233,7 @@ func c04RunRound(rep *vk.Report, idx int) {
 			cfg.SuccKind, cfg.SuccThreshold, cfg.SuccCapacity = "ratio", 1, capTrial
 		}
 	}
-	cs := c04Case{Cfg: cfg, Comp: vk.Pick(r, "cb", "cb", "retry(cb)", "timeout(cb)", "cb(timeout)", "fallback(cb)"), Workers: 8 + r.IntN(25), Async: r.IntN(3) == 0,
+	cs := c04Case{Cfg: cfg, Comp: vk.Pick(r, "cb", "cb", "retry(cb)", "timeout(cb)", "cb(timeout)", "fallback(cb)", "cb(bhfull)"), Workers: 8 + r.IntN(25), Async: r.IntN(3) == 0,
 		DelayFunc: r.IntN(2) == 0, ManualOpen: r.IntN(4) == 0}
 	rd := newC04Round(cs)
 	rep.Eval()
